@@ -89,6 +89,8 @@ type Policy struct {
 }
 
 func (p *Policy) String() string {
+	mu.Lock()
+	defer mu.Unlock()
 	str := fmt.Sprintf(
 		"allow_new_swaps: %t\n"+
 			"min_swap_amount_msat: %d\n"+
@@ -139,6 +141,8 @@ func (p *Policy) GetMinSwapAmountMsat() uint64 {
 
 // NewSwapsAllowed returns the boolean value of AllowNewSwaps.
 func (p *Policy) NewSwapsAllowed() bool {
+	mu.Lock()
+	defer mu.Unlock()
 	return p.AllowNewSwaps
 }
 
@@ -165,6 +169,13 @@ func (p *Policy) IsPeerSuspicious(peer string) bool {
 // policy file changed and the runtime should use the
 // new policy.
 func (p *Policy) ReloadFile() error {
+	mu.Lock()
+	defer mu.Unlock()
+	return p.reloadFile()
+}
+
+// reloadFile reloads the policy file. The caller must hold mu.
+func (p *Policy) reloadFile() error {
 	if p.path == "" {
 		return ErrNoPolicyFile
 	}
@@ -208,7 +219,7 @@ func (p *Policy) DisableSwaps() error {
 		return err
 	}
 
-	return p.ReloadFile()
+	return p.reloadFile()
 }
 
 // EnableSwaps sets the AllowNewSwaps field to true. This persists in the
@@ -230,7 +241,7 @@ func (p *Policy) EnableSwaps() error {
 		return err
 	}
 
-	return p.ReloadFile()
+	return p.reloadFile()
 }
 
 // AddToAllowlist adds a peer to the policy file in runtime. The pubkey is
@@ -255,7 +266,7 @@ func (p *Policy) AddToAllowlist(pubkey string) error {
 	if err != nil {
 		return err
 	}
-	return p.ReloadFile()
+	return p.reloadFile()
 }
 
 // AddToSuspiciousPeerList adds a peer as a suspicious peer to the policy file
@@ -280,7 +291,7 @@ func (p *Policy) AddToSuspiciousPeerList(pubkey string) error {
 	if err != nil {
 		return err
 	}
-	return p.ReloadFile()
+	return p.reloadFile()
 }
 
 func addLineToFile(filePath, line string) error {
@@ -335,7 +346,7 @@ func (p *Policy) RemoveFromAllowlist(pubkey string) error {
 	if err != nil {
 		return err
 	}
-	return p.ReloadFile()
+	return p.reloadFile()
 }
 
 // RemoveFromSuspiciousPeerList removes the pubkey of a node from the policy
@@ -366,7 +377,7 @@ func (p *Policy) RemoveFromSuspiciousPeerList(pubkey string) error {
 	if err != nil {
 		return err
 	}
-	return p.ReloadFile()
+	return p.reloadFile()
 }
 
 func removeLineFromFile(filePath, line string) error {
